@@ -3,6 +3,8 @@ import AquaVerif.Drv.RainPartition
 import AquaVerif.Drv.RootZone
 import AquaVerif.Drv.WaterStress
 import AquaVerif.Drv.Drainage
+import AquaVerif.Drv.Calendar
+import AquaVerif.Drv.Clock
 import AquaVerif.Drv.PreIrrigation
 import AquaVerif.Drv.GroundwaterInflow
 import AquaVerif.Drv.CapillaryRise
@@ -29,7 +31,11 @@ def handlers : List (String × Handler) := [
   ("check_groundwater_table", hCheckGroundwaterTable),
   ("capillary_rise", hCapillaryRise),
   ("groundwater_inflow", hGroundwaterInflow),
-  ("pre_irrigation", hPreIrrigation)
+  ("pre_irrigation", hPreIrrigation),
+  ("clock", hClock),
+  ("clock_calls", hClockCalls),
+  ("calendar", hCalendar),
+  ("civil_range", hCivilRange)
 ]
 
 def step (ctx : Ctx) (line : String) : Ctx × String :=
